@@ -41,6 +41,7 @@ def shards(tier, seed):
     out.append(("child_pairs_SECP112r2", dict(kind="pairs", cname="SECP112r2", npairs=3, lz=False, _pyopt="opt+hashseed")))
     out.append(("child_loaders", dict(kind="loaders", cnames=["BRAINPOOLP160r1", "SECP112r2"], _pyopt="opt")))
     out.append(("child_toy", dict(kind="toy", ncurves=2, _pyopt="opt")))
+    out.append(("near_recursion_limit", dict(kind="near_limit")))
     return out
 
 
@@ -119,6 +120,8 @@ def load_remote(e, vk, how):
 
 def run(ctx, name, kind, **kw):
     rng = ctx.rng
+    if kind == "near_limit":
+        return sigs.near_limit(ctx, rng, ["NIST521p", "NIST224p", "SECP112r2"], ['ecdh'])
     if kind == "pairs":
         c = lib.BY_NAME[kw["cname"]]
         dom = lib.dom_of(c)
